@@ -510,14 +510,18 @@ theorem code_stripComments (fll : String) (delim : Char) :
     ∃ σ, Gen.Code.Op_strip_comments.run fll delim {} = .ok σ ∧ σ.ret = some (Py.FllIn.stripComments delim fll) :=
   Py.FllIn.code_stripComments fll delim
 
-/-- the lexer of the driver's text layer cuts a physical line in the same way (`stripLine '#'`) -/
+/-- the lexer of the driver's text layer cuts a physical line in the same way (`stripLine '#'`); a `term` / `rule` key
+    followed by white space before the colon is kept as an unknown key (the importer rejects it when the component is
+    processed) -/
 theorem lexer_strips_like_strip_comments (s : List Char) :
     lexLine s =
       if (Py.FllIn.stripLine '#' s).isEmpty then .ok none
       else match (Py.FllIn.stripLine '#' s).span (· ≠ ':') with
         | (_, []) => .error .syntax
-        | (k, _ :: v) => .ok (some ⟨Key.ofText (String.ofList (trimChars k)),
-            lexValue (Key.ofText (String.ofList (trimChars k))) (trimChars v)⟩) :=
+        | (k, _ :: v) =>
+          if (Key.ofText (String.ofList (trimChars k)) = .term ∨ Key.ofText (String.ofList (trimChars k)) = .rule) ∧ k ≠ trimChars k
+          then .ok (some ⟨.other (String.ofList k), textTok (trimChars v)⟩)
+          else .ok (some ⟨Key.ofText (String.ofList (trimChars k)), lexValue (Key.ofText (String.ofList (trimChars k))) (trimChars v)⟩) :=
   Py.FllIn.lexLine_stripLine s
 
 /-- `Op.scale(x, x_min, x_max, y_min, y_max)` -/
